@@ -760,10 +760,13 @@ def repeat_free(seqs, k, rc):
     for s in seqs:
         for ci, contig in enumerate(s):
             for j in range(len(contig) - k + 1):
-                key, _, pal = canon_arms(contig[j:j + k], rc)
+                key, flip, pal = canon_arms(contig[j:j + k], rc)
                 if pal:
                     return False
-                if seen.setdefault(key, (ci, j)) != (ci, j):
+                # unique on both strands: same key => same coordinate AND same orientation
+                # (two SNPs exactly k-1 apart can turn one sample's arms into the reverse
+                # complement of another's at the same coordinate: T03 weak_repeatFree_counterexample)
+                if seen.setdefault(key, (ci, j, flip)) != (ci, j, flip):
                     return False
     return True
 
